@@ -30,7 +30,10 @@ PROPS = {
             'not_claimed': ['child processes launched with Process.launch (their future is awaited like any other: resolved())',
                             'replacement of an earlier context value by a later step (plain attribute assignment)']},
     'C06': {'scans': [], 'trusted': [],
-            'bounded': [{'name': 'wakeup_search', 'recipe': 'context_barrier',
+            'bounded': [{'name': 'control_history_search', 'recipe': 'control_histories', 'args': {'claims': ['C06']},
+                         'functions': 'resume() interleaved with pause/play/kill inside one waiting step (history over the event loop)',
+                         'bound': 'three-step process; all sequences of up to 3 requests from {pause, play, kill, resume} inside the waiting step: 84 histories'},
+                        {'name': 'wakeup_search', 'recipe': 'context_barrier',
                          'functions': 'wake-up histories over the event loop (completion callbacks vs pause/play): outside per-function contracts',
                          'bound': '1..3 awaited futures, every completion order, 4 modes incl. completion while paused then play: 264 histories'}],
             'not_claimed': ['"continues once it is playing" is a liveness statement over the event loop: the contracts cover the safety half '
@@ -54,9 +57,32 @@ PROPS = {
     'C09': {'scans': [], 'trusted': [], 'bounded': [], 'not_claimed': []},
     'C18': {'scans': ['user_code_runs_in_scope', 'hooks_run_in_scope'], 'trusted': [], 'bounded': [], 'not_claimed': []},
     'C02': {'scans': [], 'trusted': [], 'bounded': [], 'not_claimed': []},
-    'C03': {'scans': [], 'trusted': [], 'bounded': [], 'not_claimed': []},
-    'C04': {'scans': [], 'trusted': [], 'bounded': [], 'not_claimed': []},
-    'C05': {'scans': [], 'trusted': [], 'bounded': [], 'not_claimed': []},
+    'C03': {'scans': [], 'trusted': [],
+            'bounded': [{'name': 'failure_injection_search', 'recipe': 'failure_injection',
+                         'functions': 'where a user exception ends up (transition_to / transition_failed / Process.step / callback_excepted / '
+                                      'super_check helpers over a live process): history claim outside per-function contracts',
+                         'bound': 'one exception injected at each of: step function, continuation, call_soon callback, 11 state hooks (before and '
+                                  'after their super() call), a listener, 3 pause/play hooks (direct path) and 2 on the deferred path, 2 construction hooks: 40 runs'},
+                        {'name': 'control_history_search', 'recipe': 'control_histories', 'args': {'claims': ['C03']},
+                         'functions': 'nothing is reported to the event loop during control-request histories',
+                         'bound': '407 control-request histories (see C04)'}],
+            'not_claimed': []},
+    'C04': {'scans': [], 'trusted': [],
+            'bounded': [{'name': 'control_history_search', 'recipe': 'control_histories', 'args': {'claims': ['C04']},
+                         'functions': 'histories of control requests over the event loop (Process.step / kill / pause / play / resume / '
+                                      'interrupt actions interleaved): whole-history claims outside per-function contracts',
+                         'bound': 'three-step process (async step awaiting a gate, Wait, Continue); all sequences of up to 3 requests from '
+                                  '{pause, play, kill, resume} at 4 points (created, paused at a boundary, inside the running step, inside the '
+                                  'waiting step): 407 histories'}],
+            'not_claimed': []},
+    'C05': {'scans': [], 'trusted': [],
+            'bounded': [{'name': 'control_history_search', 'recipe': 'control_histories', 'args': {'claims': ['C05']},
+                         'functions': 'histories of control requests over the event loop (Process.step / kill / pause / play / resume / '
+                                      'interrupt actions interleaved): whole-history claims outside per-function contracts',
+                         'bound': 'three-step process (async step awaiting a gate, Wait, Continue); all sequences of up to 3 requests from '
+                                  '{pause, play, kill, resume} at 4 points (created, paused at a boundary, inside the running step, inside the '
+                                  'waiting step): 407 histories'}],
+            'not_claimed': []},
     'C01': {'scans': ['allowed_subset_graph', 'state_written_only_by_the_machine'], 'trusted': [], 'bounded': [], 'not_claimed': []},
     'C14': {'scans': [], 'trusted': [], 'bounded': [], 'not_claimed': []},
     'C20': {'scans': [], 'trusted': [], 'bounded': [], 'not_claimed': []},
